@@ -3,6 +3,7 @@ package scen
 import (
 	"fmt"
 	"math/rand"
+	"regexp"
 	"strings"
 )
 
@@ -129,6 +130,15 @@ func fzFieldCase(sk, dk fzFieldKind, mode string, tg int) *fzCase {
 	case "mapped":
 		fs = "\tQ " + sk.typ + "\n"
 		fd = "\tF " + dk.typ + "\n"
+	case "embedded": // embedded on both sides (kinds that are not embeddable fall back to a pair)
+		fs = "\tF " + sk.typ + "\n"
+		fd = "\tF " + dk.typ + "\n"
+		if reEmbeddable.MatchString(sk.typ) {
+			fs = "\t" + sk.typ + "\n"
+		}
+		if reEmbeddable.MatchString(dk.typ) {
+			fd = "\t" + dk.typ + "\n"
+		}
 	}
 	c.decls = []string{fzFieldDecls,
 		"type FS struct {\n\tG int\n" + fs + "}",
@@ -144,6 +154,8 @@ func fzFieldCase(sk, dk fzFieldKind, mode string, tg int) *fzCase {
 	c.imports = fzImportsFor(sk.typ, dk.typ)
 	return c
 }
+
+var reEmbeddable = regexp.MustCompile(`^\*?[A-Za-z_][\w.]*(\[\w+\])?$`)
 
 var fzRecursive = []struct{ name, decls, sig string }{
 	{"ptr-slice", "type RS struct {\n\tV int\n\tNext *RS\n\tKids []RS\n}\ntype RD struct {\n\tV int\n\tNext *RD\n\tKids []RD\n}", "(*RS) *RD"},
@@ -161,6 +173,14 @@ var fzRecursive = []struct{ name, decls, sig string }{
 	{"named-slice-self", "type RL []RL\ntype RS struct{ L RL }\ntype RD struct{ L RL }", "(*RS) *RD"},
 	{"named-ptr-self", "type RP *RP\ntype RS struct{ P RP }\ntype RD struct{ P RP }", "(*RS) *RD"},
 	{"generic-self", "type RG[T any] struct {\n\tV    T\n\tNext *RG[T]\n}\ntype RS struct{ G RG[int] }\ntype RD struct{ G RG[int64] }", "(*RS) *RD"},
+	{"blank-fields", "type RS struct {\n\t_ int\n\t_ string\n\tV int\n}\ntype RD struct {\n\t_ int\n\t_ string\n\tV int\n}", "(*RS) *RD"},
+	{"duplicate-fields", "type RS struct {\n\tV int\n\tV string\n}\ntype RD struct {\n\tV int\n\tV string\n\tv int\n}", "(*RS) *RD"},
+	{"field-named-like-method", "type RS struct{ String string }\n\nfunc (s RS) V() int { return 0 }\n\ntype RD struct {\n\tString string\n\tV      int\n}\n\nfunc (d RD) String() string { return \"\" }", "(*RS) *RD"},
+	{"embedded-promoted", "type RE struct{ V int }\ntype RS struct {\n\tRE\n\tW int\n}\ntype RD struct {\n\tV int\n\tW int\n\tRE RE\n}", "(*RS) *RD"},
+	{"embedded-error-iface", "type RS struct {\n\terror\n\tV int\n}\ntype RD struct {\n\terror\n\tV int\n}", "(*RS) *RD"},
+	{"embedded-imported", "type RS struct {\n\text.Pub\n\t*ext.Inner\n}\ntype RD struct {\n\text.Pub\n\t*ext.Inner\n}", "(*RS) *RD"},
+	{"no-fields", "type RS struct{}\ntype RD struct{}", "(*RS) *RD"},
+	{"only-unexported-imported", "type RS struct{ H ext.AllHidden }\ntype RD struct{ H ext.AllHidden }", "(*ext.AllHidden) *ext.AllHidden"},
 	{"nested-by-value-deep", "type RS struct{ A struct{ B struct{ C struct{ D struct{ E struct{ V int } } } } } }\ntype RD struct{ A struct{ B struct{ C struct{ D struct{ E struct{ V int64 } } } } } }", "(*RS) *RD"},
 }
 
@@ -313,6 +333,9 @@ func fzFileShapes() []fzFileShape {
 		{name: "type-errors-elsewhere", raw: fzValidFile + "\nfunc broken() int { return \"s\" + 1 }\nvar u Undefined\n"},
 		{name: "redeclared-operand-type", raw: fzValidFile + "\ntype SA struct{ Q int }\n"},
 		{name: "init-cycle", raw: fzValidFile + "\nvar a = b\nvar b = a\n"},
+		{name: "line-directive-before-iface", raw: strings.Replace(fzValidFile, "// Convergen is", "//line other.go:100\n// Convergen is", 1)},
+		{name: "line-directive-in-iface", raw: strings.Replace(fzValidFile, "\t// :typecast", "//line /nonexistent/x.go:1\n\t// :typecast\n\t// :skip", 1)},
+		{name: "line-directive-first", raw: "//line gen.go:1\n" + fzValidFile},
 		{name: "nonexistent-path", raw: fzValidFile, argv: "nope.go"},
 		{name: "nonexistent-dir", raw: fzValidFile, argv: "nodir/setup.go"},
 		{name: "dir-as-input", raw: fzValidFile, argv: "."},
@@ -323,6 +346,11 @@ func fzFileShapes() []fzFileShape {
 		{name: "go-content-odd-extension", raw: fzValidFile, argv: "setup.txt", files: map[string]string{"setup.txt": fzValidFile}},
 		{name: "test-file-as-input", raw: fzValidFile, argv: "x_test.go", files: map[string]string{"x_test.go": strings.Replace(fzValidFile, "Convergen interface", "Convergen2 interface", 1)}},
 		{name: "empty-arg", raw: fzValidFile, argv: ""},
+		{name: "dot-slash-path", raw: fzValidFile, argv: "./setup.go"},
+		{name: "double-slash-path", raw: fzValidFile, argv: ".//setup.go"},
+		{name: "absolute-path", raw: fzValidFile, argv: "ABS/setup.go"},
+		{name: "via-parent-path", raw: fzValidFile, argv: "../PKG/setup.go"},
+		{name: "trailing-slash-path", raw: fzValidFile, argv: "setup.go/"},
 		{name: "absolute-dev-null", raw: fzValidFile, argv: "/dev/null"},
 		{name: "outside-module", raw: fzValidFile, nomodule: true},
 		{name: "outside-module-no-types", raw: fzValidFile, nomodule: true, noTypes: true},
@@ -331,6 +359,19 @@ func fzFileShapes() []fzFileShape {
 		{name: "vendor-dir", raw: fzValidFile, files: map[string]string{"vendor/x/x.go": "package x\n"}},
 		{name: "underscore-dir-sibling", raw: fzValidFile, files: map[string]string{"_skip/s.go": "package broken (\n"}},
 	}
+}
+
+func init() {
+	// 60 levels of by-value nesting with different leaf types
+	nest := func(leaf string) string {
+		t := "struct{ V " + leaf + " }"
+		for i := 0; i < 60; i++ {
+			t = "struct{ N " + t + " }"
+		}
+		return t
+	}
+	fzRecursive = append(fzRecursive, struct{ name, decls, sig string }{"nested-by-value-60",
+		"type RS " + nest("int") + "\ntype RD " + nest("int64"), "(*RS) *RD"})
 }
 
 // fzLevelC builds n signature / operand / structure cases.
@@ -371,6 +412,7 @@ func fzLevelC(r *rand.Rand, n int) []*fzCase {
 		for tg := range fzToggles {
 			c := &fzCase{group: "c/recursive", class: "c/recursive/" + rc.name + "/" + fzToggles[tg].name}
 			c.decls = []string{inj(rc.decls)}
+			c.imports = fzImportsFor(rc.decls, rc.sig)
 			c.tsig = rc.sig
 			c.tdoc = fzToggles[tg].doc
 			core = append(core, c)
@@ -445,15 +487,51 @@ func fzLevelC(r *rand.Rand, n int) []*fzCase {
 		out = append(out, c)
 	}
 	// C3 field kinds: src kind x dst kind x mode x toggles (sampled, stratified on the destination kind)
-	modes := []string{"pair", "pair", "pair", "dst-only", "getter", "mapped"}
+	modes := []string{"pair", "pair", "pair", "dst-only", "getter", "mapped", "embedded"}
 	off = r.Intn(1 << 16)
 	for i := 0; len(out) < n; i++ {
 		dk := fzFieldKinds[(off+i)%len(fzFieldKinds)]
 		sk := fzFieldKinds[r.Intn(len(fzFieldKinds))]
-		if r.Intn(4) == 0 {
+		switch r.Intn(4) {
+		case 0:
 			sk = dk
+		case 1:
+			// a source kind of the same family (error-like, struct-like, ...) as the destination
+			if fam := fzFamily(dk.name); len(fam) > 0 {
+				sk = fam[r.Intn(len(fam))]
+			}
 		}
 		out = append(out, fzFieldCase(sk, dk, modes[r.Intn(len(modes))], r.Intn(len(fzToggles))))
+	}
+	return out
+}
+
+// fzFamily returns the field kinds related to the given one (sharing a family keyword).
+func fzFamily(name string) []fzFieldKind {
+	var key string
+	for _, k := range []string{"error", "iface", "struct", "func", "chan", "map", "generic", "stringer", "slice", "ptr"} {
+		if strings.Contains(name, k) {
+			key = k
+			break
+		}
+	}
+	if key == "" {
+		return nil
+	}
+	if key == "error" || key == "iface" {
+		var out []fzFieldKind
+		for _, k := range fzFieldKinds {
+			if strings.Contains(k.name, "error") || strings.Contains(k.name, "iface") {
+				out = append(out, k)
+			}
+		}
+		return out
+	}
+	var out []fzFieldKind
+	for _, k := range fzFieldKinds {
+		if strings.Contains(k.name, key) {
+			out = append(out, k)
+		}
 	}
 	return out
 }
